@@ -39,11 +39,17 @@ typedef unsigned short ushort;
     HANDLE_FLOAT_TYPES()
 
 // The kernels read the elements as native C values: an array in the other byte order would be
-// processed on its byte-swapped values without any warning.
+// processed on its byte-swapped values without any warning, and a misaligned one (byte strides
+// that are not multiples of the item size) on bytes straddling two elements.
 #define REQUIRE_NATIVE_BYTE_ORDER(array) \
     if (!PyArray_ISNOTSWAPPED(array)) { \
         PyErr_SetString(PyExc_TypeError, "mahotas: arrays in non-native byte order are not supported. " \
                             "Please convert your data (e.g., `a.astype(a.dtype.newbyteorder('='))`) before calling mahotas functions."); \
+        return NULL; \
+    } \
+    if (!PyArray_ISALIGNED(array)) { \
+        PyErr_SetString(PyExc_TypeError, "mahotas: misaligned arrays (e.g., a field of a packed record array) are not supported. " \
+                            "Please copy your data (e.g., `a.copy()`) before calling mahotas functions."); \
         return NULL; \
     }
 
